@@ -17,6 +17,7 @@ def run(ck, tier):
     ck.rule("R-C02-rebase", "offset provenance: where a parser hands a sub-slice of its source to an inner parser and shifts the resulting spans, the sub-slice is cut directly out of the source parameter and the shift equals the start of that very cut; line-splitting parsers advance their offset by line.len() + 1 exactly once per iteration on every path")
     ck.rule("R-C02-twins", "quote twins are token *indices*: in Document::parse no call that can change the number or order of tokens (transitively: remove_indices / clear / push / insert / remove / retain / truncate / drain / extend on self.tokens) is reachable after match_quotes")
     ck.rule("R-C02-units", "spans are char offsets: no byte length / byte position of a str or String reaches a span or an index into the char source unconverted, and the Typst translator lexes verbatim source text only (rule instances of R-C04-units)")
+    ck.rule("R-C02-adjacent", "a token only swallows its neighbour: where a cursor-loop condensing pass (condense_spaces, condense_newlines) tests adjacency at all, the test compares the span.end of the very token that is then extended with the span.start of the very token it swallows - comparing some third token instead lets the kept token jump over tokens that stay in the stream (overlap)")
     ck.rule("R-C02-stale", "token indices do not survive a resize: in every Document method that removes tokens through an index list, an index collected before an earlier removal of the same method is re-based by exactly the number of tokens that removal takes out in front of it (stretch - 1 per entry of the earlier list); indices used by the first removal are the scan counter itself")
     ck.rule("R-C02-condense", "merging never loses characters: in the queue-based condensing passes of Document every token index pushed onto the removal queue is paired with an assignment that extends a kept token's span (before the push in the same iteration, or on every path from the push to remove_indices)")
     ck.not_decided += ["ordering/disjointness of Markdown / tree-sitter derived tokens (foreign parsers)", "lexical meaning of token text (number values, punctuation identity)", "quote twin validity", "Markdown::parse and Typst offset bookkeeping (byte/char accumulators: see C04)"]
@@ -28,6 +29,7 @@ def run(ck, tier):
     _condense(ck, p, byk)
     _quotes_last(ck, p, byk)
     _stale(ck, p, byk)
+    _adjacent(ck, p, byk)
     from . import c04, c05
     c04._byte_lengths(c05._Sub(ck, "R-C02-units", ""), p)
     c04._typst_verbatim(c05._Sub(ck, "R-C02-units", ""), p)
@@ -569,3 +571,111 @@ def _stale(ck, p, byk, rule="R-C02-stale"):
                 ck.ob(rule, key, verdict, f.loc(pt["ln"]), detail)
                 ok_all = ok_all and verdict == "PROVED"
     ck.floor(rule, "Document methods that remove tokens through an index list", n_methods, 5)
+
+
+def _adjacent(ck, p, byk):
+    rule = "R-C02-adjacent"
+    n = 0
+    for key in ("Document::condense_spaces", "Document::condense_newlines"):
+        fs = byk.get(key)
+        if not ck.anchor(rule, key, fs):
+            continue
+        f = fs[0]
+        ck.saw(f)
+        pv = Prov(f)
+
+        def fpath(pl):
+            return [e[2] for e in pl[1:] if isinstance(e, list) and e[0] == "f"]
+
+        def base_of(l, depth=0):
+            """follow reborrows / copies of a reference to the local it was taken from"""
+            for _ in range(6):
+                ds = [x for (b2, si, k, x) in pv.defs.get(l, []) if k == "assign"]
+                if len(ds) != 1:
+                    return l
+                rv = ds[0]["rv"]
+                if rv["k"] == "ref" and not fpath(rv["place"]) and not any(isinstance(e, list) and e[0] == "i" for e in rv["place"][1:]):
+                    l = rv["place"][0]
+                elif rv["k"] == "ref" and any(isinstance(e, list) and e[0] == "i" for e in rv["place"][1:]):
+                    # &mut vec[idx] / &vec[idx] written as a place: identity = (vector, index variable)
+                    il = [e[1] for e in rv["place"][1:] if isinstance(e, list) and e[0] == "i"][0]
+                    return ("elem", tuple(fpath(rv["place"])), _canon(il))
+                elif rv["k"] == "use" and place_of(rv["op"]) and len(place_of(rv["op"])) == 1:
+                    l = place_of(rv["op"])[0]
+                else:
+                    return l
+            return l
+        def _canon(l):
+            for _ in range(6):
+                ds = [x for (b2, si, k, x) in pv.defs.get(l, []) if k == "assign"]
+                if len(ds) == 1 and ds[0]["rv"]["k"] == "use" and place_of(ds[0]["rv"]["op"]) and len(place_of(ds[0]["rv"]["op"])) == 1:
+                    l = place_of(ds[0]["rv"]["op"])[0]
+                else:
+                    break
+            return l
+        _plain_base = base_of
+
+        def base_of(l, depth=0):
+            r = _plain_base(l)
+            if isinstance(r, tuple):
+                return r
+            # result of Index::index / index_mut(vec, idx)
+            cs = [x for (b2, si, k, x) in pv.defs.get(r, []) if k == "call"]
+            if len(cs) == 1 and method(cs[0]) in ("index", "index_mut") and len(cs[0]["args"]) > 1 and place_of(cs[0]["args"][1]):
+                vec = arg_fields(pv, cs[0]["args"][0])
+                return ("elem", tuple(sorted(vec)), _canon(place_of(cs[0]["args"][1])[0]))
+            return r
+        loads = {}
+        for b in f.blocks:
+            for sx in b["s"]:
+                if sx["k"] == "assign" and len(sx["lhs"]) == 1 and sx["rv"]["k"] == "use" and place_of(sx["rv"]["op"]):
+                    pl = place_of(sx["rv"]["op"])
+                    fp = fpath(pl)
+                    if fp[-2:] in (["span", "end"], ["span", "start"]):
+                        loads[sx["lhs"][0]] = (base_of(pl[0]), fp[-1])
+        guards = []
+        for b in f.blocks:
+            for sx in b["s"]:
+                if sx["k"] == "assign" and sx["rv"]["k"] == "bin" and sx["rv"]["op"] in ("Ne", "Eq"):
+                    la, lb = place_of(sx["rv"]["a"]), place_of(sx["rv"]["b"])
+                    if la and lb and la[0] in loads and lb[0] in loads:
+                        x, y = loads[la[0]], loads[lb[0]]
+                        if {x[1], y[1]} == {"end", "start"}:
+                            e_, s_ = (x, y) if x[1] == "end" else (y, x)
+                            guards.append((e_[0], s_[0], sx["ln"]))
+        exts = []
+        for b in f.blocks:
+            for sx in b["s"]:
+                if sx["k"] == "assign" and fpath(sx["lhs"])[-2:] == ["span", "end"]:
+                    src = None
+                    if sx["rv"]["k"] == "use" and place_of(sx["rv"]["op"]):
+                        pl = place_of(sx["rv"]["op"])
+                        if fpath(pl)[-2:] == ["span", "end"]:
+                            src = base_of(pl[0])
+                        elif pl[0] in loads and loads[pl[0]][1] == "end":
+                            src = loads[pl[0]][0]
+                    exts.append((base_of(sx["lhs"][0]), src, sx["ln"]))
+        if not exts:
+            ck.undecided(rule, key, f.span, "no `kept.span.end = other.span.end` assignment found")
+            continue
+        n += 1
+        if not guards:
+            # the pass merges vector neighbours unconditionally (condense_newlines): nothing lies between two
+            # neighbouring tokens, so there is no third token to jump over - no adjacency belief to be consistent with
+            ck.proved(rule, key, f.span, "%d extension(s); the pass makes no adjacency test at all (vector neighbours are merged unconditionally)" % len(exts))
+            continue
+        bad = [(k_, o_, ln) for (k_, o_, ln) in exts if not any(g[0] == k_ and g[1] == o_ for g in guards)]
+        names = f.debug_names()
+        if bad:
+            k_, o_, ln = bad[0]
+            ck.refuted(rule, key, f.loc(ln), "`%s.span.end = %s.span.end` is not guarded by a comparison of %s.span.end with %s.span.start (adjacency tests found: %s): the kept token can swallow a token it does not touch, jumping over tokens that stay in the stream" % (
+                _nm(names, k_), _nm(names, o_), _nm(names, k_), _nm(names, o_), [(_nm(names, a), _nm(names, b_)) for a, b_, _ in guards]))
+        else:
+            ck.proved(rule, key, f.span, "%d extension(s), each guarded by the adjacency test on the same two tokens" % len(exts))
+    ck.floor(rule, "cursor-loop condensing passes with a span extension", n, 2)
+
+
+def _nm(names, x):
+    if isinstance(x, tuple):
+        return "%s[%s]" % (".".join(x[1]) or "tokens", names.get(x[2], "_%s" % x[2]))
+    return names.get(x, "_%s" % x)
